@@ -292,7 +292,9 @@ PROPS["C14"] = dict(
                "and the null dart untouched, error clauses) is an executable Coq predicate applied to every implementation "
                "observation; proved for all inputs: atomicity of failures, and the well-formedness clause (C14_insertion_keeps_wf2, "
                "Map2/KernWf.v: on every well-formed map, every in-use edge dart and every list of distinct in-use spare darts, an "
-               "insertion that terminates normally leaves a well-formed map)",
+               "insertion that terminates normally leaves a well-formed map; C14_single_insertion_keeps_wf2: the same for the "
+               "single-vertex entry point insert_vertex_on_edge, its own code path, with the kernel's freeness test as the only "
+               "source of distinctness)",
     technique="Coq model of the kernel + correspondence + extracted Coq specification as per-run validator",
     families=[
         Family("kern-insert", "core2", r_kern("insert", 1500, 30000), 1, [(7, "insert_spec", INS_CLASSES)]),
